@@ -2,6 +2,8 @@ import Ts.Model.Af
 import Ts.Spec.Bits
 import Ts.Spec.AfSpec
 import Ts.Lemmas.C13
+import Ts.Lemmas.RevC
+import Ts.Gen.Consts
 /-!
 # C13 — adaptation-field and extension accessors are bit-exact and never read outside the field
 
@@ -15,10 +17,34 @@ sequential cursor parser `specAf` / `specExt` (`Ts/Spec/AfSpec.lean`: ISO/IEC 13
 * otherwise            ⇒ the `uimsbf` value of the bytes at the cursor (`Field.present`)
 
 All results are `R.ok`: no accessor panics.  `never_outside*` make explicit that a reported value
-is always decoded from `readN buf cur n` with `cur + n ≤ buf.length`.
+is always decoded from `readN buf cur n` with `cur + n ≤ buf.length`; `never_outside_model_at` /
+`never_outside_ext_model_at` name the position `cur` of every element in closed form
+(`posOpcr` … `posSeamless` of `Ts/Spec/AfSpec.lean`).
+
+Readings (review C) — places where the specification follows the code rather than the letter of the
+standard, stated here so that nobody has to discover them:
+* **`splice_countdown` is unsigned.**  The standard declares it `8 tcimsbf` (two's complement); the
+  crate returns the raw `u8`.  `splice_countdown_is_raw_byte` says the API value is the byte read
+  as `0..=255`; `splice_countdown_signed_reading` gives the conversion `spliceSigned` to the
+  standard's value (byte `0xFF` ↦ API 255, standard −1).
+* **An extension of length 0 is `NotEnoughData`** (`nonEmpty` in the spec): this follows
+  `AdaptationFieldExtension::new`; the standard makes the extension's flags byte mandatory, so a
+  zero length is malformed, but the choice of *which* error is the crate's.
+* **Marker bits** of the seamless-splice DTS_next_AU are checked (first cleared one reported);
+  the 6 reserved bits of PCR/OPCR, the reserved bits of the extension and of piecewise_rate are
+  ignored, as the standard requires of decoders.
+* Every theorem assumes `buf ≠ []` (what `AdaptationField::new` asserts); for adaptation fields
+  taken from a packet this is `Ts.Props.C12.af_nonempty`.
+* Not tied to regenerated constants (no constant exists in `Ts/Gen/Consts.lean`): the element sizes
+  1 (splice_countdown), 2 (ltw), 3 (piecewise_rate), 5 (seamless splice) and the flag masks.
 -/
 namespace Ts.Props.C13
-open Ts Ts.Spec Ts.Spec.AfSpec Ts.Time Ts.Af Ts.Lemmas.C13
+open Ts Ts.Spec Ts.Spec.AfSpec Ts.Time Ts.Af Ts.Lemmas.C13 Ts.Lemmas.RevC
+
+/-! ### tie to the constant regenerated from `/repo/src/packet.rs` -/
+/-- `AdaptationField::PCR_SIZE`: the regenerated value, the model's constant, and the `6` the
+specification (`specAf`) uses for PCR and OPCR -/
+theorem tie_pcr_size : Ts.Gen.pcrSize = Af.PCR_SIZE ∧ Ts.Gen.pcrSize = 6 := by decide
 
 /-! ### `AdaptationField::new` -/
 
@@ -214,7 +240,9 @@ theorem never_outside_ext (e : Bytes) :
     obtain ⟨d, hd, hv⟩ := map_present _ _ _ h
     exact ⟨_, d, (optElem_present _ _ _ _ _ hd).2, hv⟩
 
-/-- the model: every value an accessor returns is decoded from a window inside `buf` -/
+/-- the model: every value an accessor returns is decoded from *some* window inside `buf`.
+WEAK: the window offset `cur` is existentially quantified and otherwise unconstrained; the sharp
+version, which names `cur`, is `never_outside_model_at` below. -/
 theorem never_outside_model (buf : Bytes) (hne : buf ≠ []) :
     (∀ v, Af.pcr buf = .ok (.ok v) →
         ∃ cur d, cur + 6 ≤ buf.length ∧ d = (buf.drop cur).take 6 ∧ v = clockOf d)
@@ -290,6 +318,149 @@ theorem never_outside_ext_model (e : Bytes) (hne : e ≠ []) :
     obtain ⟨h1, h2, _, _⟩ := readN_inside _ _ _ _ hr
     exact ⟨cur, d, h1, h2, hv.symm⟩
 
+/-! ### the sharp form: each value comes from the window at its element's position
+
+Stronger than `never_outside_model`: the flag is set, the window starts at the closed-form position
+of the element (`posOpcr`, `posSplice`, `posPriv`, `posExt` of `Ts/Spec/AfSpec.lean`, written from
+the flag bits and — for `posExt` — the private-data length byte), it lies inside `buf`, and the value
+is the decode of exactly those bytes.  Hypothesis: `buf ≠ []`. -/
+theorem never_outside_model_at (buf : Bytes) (hne : buf ≠ []) :
+    (∀ v, Af.pcr buf = .ok (.ok v) →
+        readBits buf 3 1 = 1 ∧ 1 + 6 ≤ buf.length ∧ v = clockOf ((buf.drop 1).take 6))
+      ∧ (∀ v, Af.opcr buf = .ok (.ok v) →
+        readBits buf 4 1 = 1 ∧ posOpcr buf + 6 ≤ buf.length
+          ∧ v = clockOf ((buf.drop (posOpcr buf)).take 6))
+      ∧ (∀ v, Af.spliceCountdown buf = .ok (.ok v) →
+        readBits buf 5 1 = 1 ∧ posSplice buf + 1 ≤ buf.length ∧ v = byteD buf (posSplice buf))
+      ∧ (∀ v, Af.privateData buf = .ok (.ok v) →
+        readBits buf 6 1 = 1 ∧ posPriv buf + 1 + byteD buf (posPriv buf) ≤ buf.length
+          ∧ v = (buf.drop (posPriv buf + 1)).take (byteD buf (posPriv buf)))
+      ∧ (∀ v, Af.extension buf = .ok (.ok v) →
+        readBits buf 7 1 = 1 ∧ posExt buf + 1 + byteD buf (posExt buf) ≤ buf.length
+          ∧ v = (buf.drop (posExt buf + 1)).take (byteD buf (posExt buf)) ∧ v ≠ []) := by
+  refine ⟨?_, ?_, ?_, ?_, ?_⟩
+  · intro v h
+    rw [pcr_exact buf hne] at h; injection h with h
+    have h := toRes_ok _ _ h
+    rw [spec_pcr] at h
+    obtain ⟨d, hd, hv⟩ := map_present _ _ _ h
+    obtain ⟨hf, hr⟩ := optElem_present _ _ _ _ _ hd
+    obtain ⟨h1, h2, _, _⟩ := readN_inside _ _ _ _ hr
+    exact ⟨by simpa using hf, h1, by rw [hv, h2]⟩
+  · intro v h
+    rw [opcr_exact buf hne] at h; injection h with h
+    have h := toRes_ok _ _ h
+    rw [spec_opcr, cur1_pos] at h
+    obtain ⟨d, hd, hv⟩ := map_present _ _ _ h
+    obtain ⟨hf, hr⟩ := optElem_present _ _ _ _ _ hd
+    obtain ⟨h1, h2, _, _⟩ := readN_inside _ _ _ _ hr
+    exact ⟨by simpa using hf, h1, by rw [hv, h2]⟩
+  · intro v h
+    rw [splice_exact buf hne] at h; injection h with h
+    have h := toRes_ok _ _ h
+    rw [spec_splice, cur2_pos] at h
+    obtain ⟨d, hd, hv⟩ := map_present _ _ _ h
+    obtain ⟨hf, hr⟩ := optElem_present _ _ _ _ _ hd
+    obtain ⟨h1, _, _, h4⟩ := readN_inside _ _ _ _ hr
+    refine ⟨by simpa using hf, h1, ?_⟩
+    have := readBits_byte d 0
+    simp only [Nat.mul_zero] at this
+    rw [hv, this, h4 0 (by omega)]; rfl
+  · intro v h
+    rw [private_exact buf hne] at h; injection h with h
+    have h := toRes_ok _ _ h
+    rw [spec_priv, cur3_pos] at h
+    obtain ⟨hf, hl, hr⟩ := optLenPrefixed_present _ _ _ _ h
+    obtain ⟨h1, h2, _, _⟩ := readN_inside _ _ _ _ hr
+    exact ⟨by simpa using hf, h1, h2⟩
+  · intro v h
+    rw [extension_exact buf hne] at h; injection h with h
+    have h := toRes_ok _ _ h
+    rw [spec_ext, cur4_pos] at h
+    obtain ⟨hp, hnv⟩ := nonEmpty_present _ _ h
+    obtain ⟨hf, hl, hr⟩ := optLenPrefixed_present _ _ _ _ hp
+    obtain ⟨h1, h2, _, _⟩ := readN_inside _ _ _ _ hr
+    exact ⟨by simpa using hf, h1, h2, hnv⟩
+
+/-- the same for the extension (`e ≠ []`, which `extension_nonempty` provides) -/
+theorem never_outside_ext_model_at (e : Bytes) (hne : e ≠ []) :
+    (∀ v, Af.ltwOffset e = .ok (.ok v) →
+        readBits e 0 1 = 1 ∧ 1 + 2 ≤ e.length ∧ v = ltwOf ((e.drop 1).take 2))
+      ∧ (∀ v, Af.piecewiseRate e = .ok (.ok v) →
+        readBits e 1 1 = 1 ∧ posPiecewise e + 3 ≤ e.length
+          ∧ v = piecewiseOf ((e.drop (posPiecewise e)).take 3))
+      ∧ (∀ v, Af.seamlessSplice e = .ok (.ok v) →
+        readBits e 2 1 = 1 ∧ posSeamless e + 5 ≤ e.length
+          ∧ seamlessOf ((e.drop (posSeamless e)).take 5) = .ok v) := by
+  refine ⟨?_, ?_, ?_⟩
+  · intro v h
+    rw [ltw_exact e hne] at h; injection h with h
+    have h := toRes_ok _ _ h
+    rw [spec_ltw] at h
+    obtain ⟨d, hd, hv⟩ := map_present _ _ _ h
+    obtain ⟨hf, hr⟩ := optElem_present _ _ _ _ _ hd
+    obtain ⟨h1, h2, _, _⟩ := readN_inside _ _ _ _ hr
+    exact ⟨by simpa using hf, h1, by rw [hv, h2]⟩
+  · intro v h
+    rw [piecewise_exact e hne] at h; injection h with h
+    have h := toRes_ok _ _ h
+    rw [spec_piecewise, ecur1_pos] at h
+    obtain ⟨d, hd, hv⟩ := map_present _ _ _ h
+    obtain ⟨hf, hr⟩ := optElem_present _ _ _ _ _ hd
+    obtain ⟨h1, h2, _, _⟩ := readN_inside _ _ _ _ hr
+    exact ⟨by simpa using hf, h1, by rw [hv, h2]⟩
+  · intro v h
+    rw [seamless_exact e hne] at h; injection h with h
+    have hp : (specExt e).seamless = .present (.ok v) := by
+      cases hs : (specExt e).seamless with
+      | absent => rw [hs] at h; cases h
+      | truncated => rw [hs] at h; cases h
+      | present w =>
+        rw [hs] at h
+        cases w with
+        | error n => cases h
+        | ok u => injection h with h; rw [h]
+    rw [spec_seamless, ecur2_pos] at hp
+    obtain ⟨d, hd, hv⟩ := map_present _ _ _ hp
+    obtain ⟨hf, hr⟩ := optElem_present _ _ _ _ _ hd
+    obtain ⟨h1, h2, _, _⟩ := readN_inside _ _ _ _ hr
+    exact ⟨by simpa using hf, h1, by rw [← h2]; exact hv.symm⟩
+
+/-! ### splice_countdown: raw byte, and its signed reading -/
+
+/-- When splicing_point_flag is set and the byte at `posSplice buf` lies inside the field,
+`splice_countdown()` returns exactly that byte as an UNSIGNED number `0..=255` (the `uimsbf` reading
+of the 8 bits).  The standard's reading of the same 8 bits is signed: see
+`splice_countdown_signed_reading`. -/
+theorem splice_countdown_is_raw_byte (buf : Bytes) (hne : buf ≠ [])
+    (hf : readBits buf 5 1 = 1) (hfit : posSplice buf + 1 ≤ buf.length) :
+    Af.spliceCountdown buf = .ok (.ok (byteD buf (posSplice buf)))
+      ∧ byteD buf (posSplice buf) = readBits buf (8 * posSplice buf) 8
+      ∧ byteD buf (posSplice buf) < 256 := by
+  refine ⟨?_, (readBits_byte buf _).symm, byteD_lt buf _⟩
+  rw [splice_exact buf hne, spec_splice, cur2_pos, hf]
+  have := (optElem_cases true buf (posSplice buf) 1).2.2 rfl hfit
+  simp only [beq_self_eq_true, this, Field.map, toRes]
+  have r := readBits_byte ((buf.drop (posSplice buf)).take 1) 0
+  simp only [Nat.mul_zero] at r
+  rw [r, byteD_take_drop _ _ _ _ (by omega)]; rfl
+
+/-- Conversion to the standard's value: for every `v` the accessor returns, `spliceSigned v`
+(`v` if `v < 128`, else `v − 256`) is the `tcimsbf` (two's complement) reading `readSigned` of the
+8 bits at the element's position, and lies in `−128..=127`.  A caller that wants ISO/IEC 13818-1's
+`splice_countdown` must apply `spliceSigned` (in Rust: `as i8`) to the returned `u8`. -/
+theorem splice_countdown_signed_reading (buf : Bytes) (hne : buf ≠ []) (v : Nat)
+    (h : Af.spliceCountdown buf = .ok (.ok v)) :
+    spliceSigned v = readSigned buf (8 * posSplice buf) 8
+      ∧ -128 ≤ spliceSigned v ∧ spliceSigned v ≤ 127
+      ∧ (v < 128 → spliceSigned v = v) ∧ (128 ≤ v → spliceSigned v = (v : Int) - 256) := by
+  obtain ⟨_, hl, hv⟩ := (never_outside_model_at buf hne).2.2.1 v h
+  have hlt : v < 256 := by rw [hv]; exact byteD_lt _ _
+  refine ⟨?_, ?_, ?_, ?_, ?_⟩
+  · rw [hv, ← readBits_byte buf (posSplice buf)]
+    exact spliceSigned_eq_readSigned buf _
+  all_goals (unfold spliceSigned; split <;> omega)
+
 /-! ### non-vacuity -/
 
 /-- all five flags (and the three indicators) set, every element fits:
@@ -347,5 +518,28 @@ example : Af.privateData exOver = .ok (.error .notEnoughData) := by
 
 /-- an extension of length 0 is reported as not-enough-data (`AdaptationFieldExtension::new`) -/
 example : (specAf [0x01, 0x00]).ext = .truncated := by decide +kernel
+
+/-! #### further examples (review C) -/
+
+/-- OPCR without PCR (flags 0x08): the OPCR starts right after the flags byte -/
+def exOpcrOnly : Bytes := [0x08, 0xFF, 0xFF, 0xFF, 0xFF, 0x81, 0xFF]
+example : posOpcr exOpcrOnly = 1 ∧ (specAf exOpcrOnly).pcr = .absent
+    ∧ (specAf exOpcrOnly).opcr = .present ⟨2 ^ 33 - 1, 511⟩ := by decide +kernel
+example : Af.opcr exOpcrOnly = .ok (.ok ⟨2 ^ 33 - 1, 511⟩) ∧ Af.pcr exOpcrOnly = .ok (.error .fieldNotPresent) :=
+  ⟨by rfl, by rfl⟩
+/-- PCR and OPCR: the OPCR starts at byte 7 -/
+example : posOpcr exFull = 7 ∧ posSplice exFull = 13 ∧ posPriv exFull = 14 ∧ posExt exFull = 17 := by
+  decide +kernel
+/-- ltw_flag set but ltw_valid_flag = 0: `Ok(None)` -/
+example : (specExt [0x80, 0x01, 0x23]).ltw = .present none
+    ∧ Af.ltwOffset [0x80, 0x01, 0x23] = .ok (.ok none) := ⟨by decide +kernel, by rfl⟩
+/-- splice_countdown byte 0xFF: the API value is 255, the standard's (`tcimsbf`) value is −1;
+byte 0x7F is +127 in both readings, byte 0x80 is 128 resp. −128 -/
+example : Af.spliceCountdown [0x04, 0xFF] = .ok (.ok 255) ∧ spliceSigned 255 = -1
+    ∧ readSigned [0x04, 0xFF] 8 8 = -1 := ⟨by rfl, by decide, by decide +kernel⟩
+example : spliceSigned 127 = 127 ∧ spliceSigned 128 = -128 ∧ spliceSigned 0 = 0 := by decide
+/-- hypotheses of `splice_countdown_is_raw_byte` on `exFull` -/
+example : exFull ≠ [] ∧ readBits exFull 5 1 = 1 ∧ posSplice exFull + 1 ≤ exFull.length
+    ∧ byteD exFull (posSplice exFull) = 0xFE := by decide +kernel
 
 end Ts.Props.C13
